@@ -504,6 +504,85 @@ theorem tie_src_dkg_sender_sendPacket : Gen.ScriptsC06.dkg_sender_sendPacket = [
   "}"
 ] := rfl
 
+theorem tie_src_dkg_sender_run : Gen.ScriptsC06.dkg_sender_run = [
+  "func (s *sender) run(ctx context.Context) {",
+  " for newPacket := range s.newCh {",
+  "  s.sendDirect(ctx, newPacket)",
+  " }",
+  "}"
+] := rfl
+
+theorem tie_src_dkg_sender_sendDirect : Gen.ScriptsC06.dkg_sender_sendDirect = [
+  "func (s *sender) sendDirect(ctx context.Context, newPacket broadcastPacket) {",
+  " node := util.ToPeer(s.to)",
+  " _, err := s.client.BroadcastDKG(ctx, node, newPacket)",
+  " if err != nil {",
+  " } else {",
+  " }",
+  "}"
+] := rfl
+
+theorem tie_src_dkg_sender_stop : Gen.ScriptsC06.dkg_sender_stop = [
+  "func (s *sender) stop() {",
+  " close(s.newCh)",
+  "}"
+] := rfl
+
+theorem tie_src_dkg_newSender : Gen.ScriptsC06.dkg_newSender = [
+  "func newSender(client net.DKGClient, to *pdkg.Participant, l log.Logger, queueSize int) *sender {",
+  " return &sender{",
+  "  l: l.Named(\"Sender\"),",
+  "  client: client,",
+  "  to: to,",
+  "  newCh: make(chan broadcastPacket, queueSize),",
+  " }",
+  "}"
+] := rfl
+
+theorem tie_src_dkg_newDispatcher : Gen.ScriptsC06.dkg_newDispatcher = [
+  "func newDispatcher(ctx context.Context, dkgClient net.DKGClient, l log.Logger, to []*pdkg.Participant, us string) *dispatcher {",
+  " var senders = make([]*sender, 0, len(to)-1)",
+  " queue := senderQueueSize(len(to))",
+  " for _, node := range to {",
+  "  if node.Address == us {",
+  "   continue",
+  "  }",
+  "  sender := newSender(dkgClient, node, l, queue)",
+  "  go sender.run(ctx)",
+  "  senders = append(senders, sender)",
+  " }",
+  " return &dispatcher{",
+  "  senders: senders,",
+  " }",
+  "}"
+] := rfl
+
+theorem tie_src_dkg_dispatcher_stop : Gen.ScriptsC06.dkg_dispatcher_stop = [
+  "func (d *dispatcher) stop() {",
+  " for _, sender := range d.senders {",
+  "  sender.stop()",
+  " }",
+  "}"
+] := rfl
+
+theorem tie_src_dkg_senderQueueSize : Gen.ScriptsC06.dkg_senderQueueSize = [
+  "func senderQueueSize(nodes int) int {",
+  " if nodes > maxQueueSize {",
+  "  return maxQueueSize",
+  " }",
+  " return nodes * 3",
+  "}"
+] := rfl
+
+theorem tie_src_dkg_echoBroadcast_Stop : Gen.ScriptsC06.dkg_echoBroadcast_Stop = [
+  "func (b *echoBroadcast) Stop() {",
+  " b.Lock()",
+  " b.isStopped = true",
+  " b.Unlock()",
+  " b.dispatcher.stop()",
+  "}"
+] := rfl
+
 theorem tie_src_dkg_protoToDKGPacket : Gen.ScriptsC06.dkg_protoToDKGPacket = [
   "func protoToDKGPacket(d *pdkg.Packet, sch *crypto.Scheme) (dkg.Packet, error) {",
   " switch packet := d.GetBundle().(type) {",
